@@ -109,8 +109,17 @@ def run(res):
     jobs = []
     meta = []
     classes = {}
+    import re as _re
+    known_wxs = 0
+    known_cmt = 0
     for j in jobs_in:
         classes[j["class"]] = classes.get(j["class"], 0) + 1
+        if _re.search(r"</wxs[A-Za-z0-9_.\-]", j["src"]) and "KF-C14-2" in kf:
+            known_wxs += 1      # KF-C14-2: the whole template is left out
+            continue
+        if _re.search(r"\{(<!--.*?-->)+\{", j["src"], _re.S) and "KF-C14-3" in kf:
+            known_cmt += 1      # KF-C14-3
+            continue
         if j.get("panic"):
             viol("printing / re-parsing panics", {"src": j["src"]})
             continue
@@ -158,6 +167,10 @@ def run(res):
                 nontrivial += 1
     if known_for and "KF-C14-1" in kf:
         res.known.append("KF-C14-1: %s (%d mangled prints with wx:for excluded in this run)" % (kf["KF-C14-1"]["what"], known_for))
+    if known_wxs:
+        res.known.append("KF-C14-2: %s (%d templates of this class left out in this run)" % (kf["KF-C14-2"]["what"], known_wxs))
+    if known_cmt:
+        res.known.append("KF-C14-3: %s (%d templates of this class left out in this run)" % (kf["KF-C14-3"]["what"], known_cmt))
     if not ok:
         res.violation(what, {"obligation": "Properties/C14.v"}, no_input=(found == 0))
     res.cov["evaluations"] = 2 * len(jobs_in) + n_cmp + rv["n"]
